@@ -117,6 +117,46 @@ pub unsafe extern "C" fn sendmsg(fd: c_int, msg: *const libc::msghdr, flags: c_i
     ret
 }
 
+/// Transient receive conditions: the next receive attempts on the socket with inode `ino` fail with the given errno values
+/// (EAGAIN: a receive timeout expired / non-blocking socket; EINTR: a signal) before anything was transferred.
+pub struct RecvScript {
+    ino: u64,
+    fails: VecDeque<i32>,
+    pub injected: usize,
+}
+pub static RSCRIPT: Mutex<Option<RecvScript>> = Mutex::new(None);
+
+/// # Safety
+/// Same contract as recvmsg(2).
+#[no_mangle]
+pub unsafe extern "C" fn recvmsg(fd: c_int, msg: *mut libc::msghdr, flags: c_int) -> isize {
+    let mut fail: Option<i32> = None;
+    if let Ok(mut g) = RSCRIPT.try_lock() {
+        if let Some(s) = g.as_mut() {
+            if !s.fails.is_empty() && s.ino != 0 && ino_of(fd) == s.ino {
+                if let Some(e) = s.fails.pop_front() {
+                    if e != 0 {
+                        s.injected += 1;
+                        fail = Some(e);
+                    }
+                }
+            }
+        }
+    }
+    if let Some(e) = fail {
+        *libc::__errno_location() = e;
+        return -1;
+    }
+    libc::syscall(libc::SYS_recvmsg, fd, msg, flags) as isize
+}
+
+pub fn arm_recv(sock: &UnixStream, errnos: &[i32]) {
+    *RSCRIPT.lock().unwrap() = Some(RecvScript { ino: ino_of(sock.as_raw_fd()), fails: errnos.iter().cloned().collect(), injected: 0 });
+}
+pub fn disarm_recv() -> usize {
+    RSCRIPT.lock().unwrap().take().map(|s| s.injected).unwrap_or(0)
+}
+
 unsafe fn passed_fds(msg: *const libc::msghdr) -> usize {
     let mut n = 0;
     if (*msg).msg_control.is_null() || (*msg).msg_controllen == 0 {
